@@ -37,7 +37,8 @@ echo "== demo on the patched tree (must fail)"
 RC1=$(run_demo /dev/shm/seeded-$ID-demo1.log); echo "   exit $RC1"
 for P in $PROP $ALSO; do
   echo "== ./check $P $TIER against the patched tree"
-  (cd /verif && VERIF_REPO="$W" ./check "$P" "$TIER") > /dev/shm/seeded-$ID-check-$P.log 2>&1
+  mkdir -p /dev/shm/seeded-out-$ID
+  (cd /verif && VERIF_OUT=/dev/shm/seeded-out-$ID VERIF_REPO="$W" ./check "$P" "$TIER") > /dev/shm/seeded-$ID-check-$P.log 2>&1
   echo "   exit $? ; VIOLATION lines: $(grep -c '^VIOLATION' /dev/shm/seeded-$ID-check-$P.log)"
   grep -A1 '^VIOLATION' /dev/shm/seeded-$ID-check-$P.log | grep 'sig=' | cut -c1-220 | head -5
 done
